@@ -41,7 +41,7 @@ CONF = {
     },
     "C15": {
         "rule": "rapid histories (5..35 ops) over all 25 transaction types (success and failure of each is required in every run), ledger changes, faults, multi-message transactions; a recording wrapper around the KVStoreService handed to the keeper logs every Set/Delete key per transaction; oracle: recorded keys and committed key diff of a successful transaction are inside the documented write set for that type and argument, failed transactions leave both stores byte-identical, all 19 queries and genesis export record no write; non-trivial = first success (or failure) of a transaction type within a case; distinct by (case shape, type, outcome)",
-        "quick": {"rapid": [("TestC15", 400, 1)]},
+        "quick": {"rapid": [("TestC15", 600, 1)]},
         "thorough": {"rapid": [("TestC15", 2500, 16)]},
     },
     "C19": {
